@@ -91,7 +91,7 @@ def run(ctx):
     logging.disable(logging.CRITICAL)
     c = env.client()
     rng = ctx.rng
-    ndefs = 6 if ctx.quick() else 40
+    ndefs = 15 if ctx.quick() else 80
     ok_list = ok_num = True
     reps = {}
     for s in ('bbb', 'tears'):
